@@ -1,8 +1,7 @@
 (* SmugglingProofs.v — lemmas and proofs for property C03 (request smuggling) about SmugglingModel.v. *)
 Require Import SquidV.Bytes.
 Require Import SquidV.TokModel SquidV.Incremental SquidV.ReqparseModel SquidV.ReqparseProofs SquidV.ReqparseGrammar.
-Require SquidV.ClenModel SquidV.ClenProofs SquidV.HdrparseModel SquidV.HdrparseProofs SquidV.ChunkedModel
-        SquidV.ChunkedProofs SquidV.HopModel.
+Require SquidV.ClenModel SquidV.HdrparseModel SquidV.ChunkedModel SquidV.ChunkedProofs SquidV.HopModel.
 Require Import SquidV.SmugglingModel.
 Require Import SquidV.gen.CharSets_gen SquidV.gen.ReqTabs_gen SquidV.gen.Smuggling_gen.
 Require Import ZifyBool ZifyN ZifyNat.
@@ -270,6 +269,9 @@ Proof.
       destruct (cl_sawGood st) eqn:G; intros H; inversion H; subst; repeat split; auto; discriminate.
 Qed.
 
+Lemma ids_differ' : (ID_CL =? ID_TE) = false.
+Proof. vm_compute. reflexivity. Qed.
+
 Definition n_cl (es : list hentry) : nat := length (filter (fun e => he_id e =? ID_CL) es).
 
 Lemma entries_loop_one_cl relaxed : forall es st kept st', h_entries_loop relaxed es st = Some (kept, st') ->
@@ -329,7 +331,7 @@ Proof.
               ** assert (h_has_id ID_TE kept = true); [|congruence].
                  unfold h_has_id, h_del_id in *. rewrite existsb_exists in *. destruct HT as (x & Hin & Hx).
                  apply filter_In in Hin as [Hin _]. exists x. auto.
-              ** unfold h_cl_entry in HT. cbn [existsb he_id] in HT. rewrite HdrparseProofs.ids_differ in HT. discriminate HT.
+              ** unfold h_cl_entry in HT. cbn [existsb he_id] in HT. rewrite ids_differ' in HT. discriminate HT.
            ++ rewrite app_nil_r. split; [cbn; lia|reflexivity].
         -- split; [exact Hle|]. intros HT. congruence.
 Qed.
@@ -505,18 +507,39 @@ Definition w_head : bytes := w_l1 ++ crlf ++ enc_lines [w_host; w_te_line; w_cl_
 Definition w_stream : bytes := w_head ++ w_body.
 Definition w_inner_uri : bytes := [104;116;116;112;58;47;47;111;47;120;48].   (* http://o/x0 *)
 
-(* In both parser modes Squid takes `chunked<VT>` for chunked: it forwards the POST with an empty body and then the
-   embedded GET as a second request, which starts INSIDE the 61 bytes the Content-Length field declares as the body. *)
-Theorem vt_after_chunked_refuted : forall relaxed, exists f1 f2,
-  run_stream (sm_default_cfg relaxed) w_stream = [EForward 0 f1; EForward (lenN w_head + 5) f2; EClose] /\
-  fw_chunked f1 = true /\ fw_body f1 = [] /\ fw_uri f2 = w_inner_uri /\
-  lenN w_body = 61 /\ Forall line_ok [w_l1; w_host; w_te_line; w_cl_line] /\
-  (* the field value is not the token "chunked": removing optional white space (SP / HTAB) leaves the VT *)
+(* REPAIRED in /repo (cc868a1, only SP / HTAB are trimmed around Content-Length and Transfer-Encoding values): in both
+   parser modes `chunked<VT>` is an unsupported transfer coding; the message is answered 501 and nothing after it is read *)
+Theorem vt_after_chunked_rejected : forall relaxed,
+  run_stream (sm_default_cfg relaxed) w_stream = [EReject 0 sm_sc_not_implemented] /\
+  Forall line_ok [w_l1; w_host; w_te_line; w_cl_line] /\
   w_te_line = name_transfer_encoding ++ [58; 32] ++ word_chunked ++ [11].
-Proof.
-  intros [|]; eexists; eexists; (split; [vm_compute; reflexivity|]);
-    repeat split; try reflexivity; repeat constructor; try discriminate.
-Qed.
+Proof. intros [|]; (split; [vm_compute; reflexivity|]); repeat split; try reflexivity; repeat constructor; try discriminate. Qed.
+
+(* likewise `Content-Length: <VT>5` and `Content-Length: 5<FF>`: 400 in both modes *)
+Definition w_cl_vt_stream : bytes := w_l1 ++ crlf ++ enc_lines [w_host; [67;111;110;116;101;110;116;45;76;101;110;103;116;104;58;32;11;53]] ++ crlf ++ [104;101;108;108;111].
+Definition w_cl_ff_stream : bytes := w_l1 ++ crlf ++ enc_lines [w_host; [67;111;110;116;101;110;116;45;76;101;110;103;116;104;58;32;53;12]] ++ crlf ++ [104;101;108;108;111].
+Theorem vt_content_length_rejected : forall relaxed,
+  run_stream (sm_default_cfg relaxed) w_cl_vt_stream = [EReject 0 sm_sc_bad_request] /\
+  run_stream (sm_default_cfg relaxed) w_cl_ff_stream = [EReject 0 sm_sc_bad_request].
+Proof. intros [|]; split; vm_compute; reflexivity. Qed.
+
+(* STILL accepted by the relaxed parser (known findings C03-chunk-line-bws, C03-cl-list-vt-ff): VT as bad white space
+   inside a chunk extension, and VT next to an element of a Content-Length list *)
+Definition w_hello : bytes := [104;101;108;108;111].
+Definition w_chunk_vt_stream : bytes :=
+  w_l1 ++ crlf ++ enc_lines [w_host; name_transfer_encoding ++ [58; 32] ++ word_chunked] ++ crlf ++
+  [53; 11; 59; 97] ++ crlf ++ w_hello ++ crlf ++ [48] ++ crlf ++ crlf.               (* 5 VT ; a CRLF hello CRLF 0 CRLF CRLF *)
+Theorem vt_in_chunk_ext_refuted : exists f,
+  run_stream (sm_default_cfg true) w_chunk_vt_stream = [EForward 0 f] /\ fw_chunked f = true /\ fw_body f = w_hello /\
+  run_stream (sm_default_cfg false) w_chunk_vt_stream = [EReset 0].
+Proof. eexists. split; [vm_compute; reflexivity|]. repeat split; vm_compute; reflexivity. Qed.
+
+Definition w_cl_list_vt_stream : bytes :=
+  w_l1 ++ crlf ++ enc_lines [w_host; name_content_length ++ [58; 32; 53; 11; 44; 32; 53]] ++ crlf ++ w_hello.   (* Content-Length: 5 VT , SP 5 *)
+Theorem vt_in_content_length_list_refuted : exists f,
+  run_stream (sm_default_cfg true) w_cl_list_vt_stream = [EForward 0 f] /\ fw_body f = w_hello /\ fw_cl f = [[53]] /\
+  run_stream (sm_default_cfg false) w_cl_list_vt_stream = [EReject 0 sm_sc_bad_request].
+Proof. eexists. split; [vm_compute; reflexivity|]. repeat split; vm_compute; reflexivity. Qed.
 
 (* ====================================================================== 7. the stream *)
 (* a message as the strict reader delimits it: request line, field lines, the octets of its body encoding *)
